@@ -903,7 +903,7 @@ def oracle_c03(line, case, stats, allc=None, lines=None):
     stats['strict_success'] = stats.get('strict_success', 0) + 1
     if twin is not None and obslog.p_full(twin) != obslog.p_full(case):
         errs.append('the successful strict run differs from the non-strict run of the same input')
-    if ' seed=100000 ' not in line and b'\x00' not in data and b'\r' not in data:
+    if ' seed=2000 ' not in line and b'\x00' not in data and b'\r' not in data:
         # sparse capture policy (the parser switches between tag scanner and lexer): whatever is captured must be an
         # in-order sub-sequence of the reference token stream
         got = _c03_impl_tokens(case)
@@ -915,7 +915,7 @@ def oracle_c03(line, case, stats, allc=None, lines=None):
             if j >= len(ref):
                 errs.append('captured token %d is not in the WHATWG reference stream (in order)%s: lol-html %r' % (k, ' [ip-name-reuse]' if refstate.ip_name_reuse else '', t)); break
             j += 1
-    if ' seed=100000 ' in line and b'\x00' not in data and b'\r' not in data:
+    if ' seed=2000 ' in line and b'\x00' not in data and b'\r' not in data:
         got = _c03_impl_tokens(case)
         ref, refstate = whatwg_ref.analyse(data)
         stats['reference_compared'] = stats.get('reference_compared', 0) + 1
